@@ -48,14 +48,26 @@ CLAIMED = {
          "(C18_order), so the regenerated stale condition and the whole stale fold decide as on bare instants (C18_decision, C18_fold_decision, "
          "C18_zone_independent); CPython's algorithms satisfy the law for one-transition zones (C18_cpython_lawful); counter-models for the pre-fix handling "
          "(C18_keepNaive_counterexample, C18_fold_counterexample) document fixed finding F3.", "4/C18"),
+ "C19": ("proof", "Lean 4 proof (capture/render on stacks of every depth over regenerated traceback code) + differential at nesting depths 1..8",
+         "For stacks of every depth the captured chain is the first min(d, D+1) frames after the API function's frame plus the truncation marker iff more "
+         "remain (C19_capture_shape), its head is the caller's line at all six API sites (C19_capture_head), nested/store/output calls inherit it "
+         "(C19_inherit_*), rendering lists frames outermost first (C19_render_order). F5 is a recorded known finding with its model witness "
+         "(C19_registered_literal_defect).", "4/C19"),
  "C10": ("proof", "Lean 4 proof (error-bound invariant over generated stop condition) + trace refinement check",
          "running <= workers, pool size <= workers, failures <= k + workers for max_errors = k, no early stop, idle workers can always take ready "
-         "items (C10_workers, C10_pool, C10_errors_bound, C10_no_early_stop, C10_none, C10_parallel, C10_parallel_begin).", "4/C10"),
+         "items (C10_workers, C10_pool, C10_errors_bound, C10_no_early_stop, C10_none, C10_parallel, C10_parallel_begin); retry: attempts = "
+         "min(n, first success + 1), eventual success counts, last exception reported, BaseException not retried, n = 1 is the identity, retry reaches "
+         "calls, store ops and mtime queries (C10_retry_*). Real-thread rendezvous runs check that max_workers independent calls do run in parallel.", "4/C10"),
  "C17": ("proof", "Lean 4 proof (interrupt transition in the engine model) + trace refinement check with injected KeyboardInterrupt",
          "After the coordinator's setStop no call begins, for the rest of the run; a running call is only ever changed by its own completion "
          "(C17_no_new, C17_no_new_ever, C17_inflight). Partial: signal delivery window before `stop = True` is runtime behaviour.", "4/C17"),
 }
 NOTES = {
+ "C19": ("Theorems are about Model/Traceback.lean (Python stack = list of frames; capture/render built from the regenerated truncation test, depth "
+         "decrement, constants and format string of _util/traceback.py) and the regenerated call-site facts (which API functions capture directly, "
+         "which nested creations inherit the captured frame). Tie: T1 regenerates Gen/Traceback.lean; T2 nests every kind of symbolic call at depths "
+         "1..8 in real threads, computes the expected chain with inspect, and compares err.call.stack_frame, str(err) and the Lean driver's "
+         "capture/render. Known finding F5 (registered Literal with failing mtime query -> AttributeError) is printed as KNOWN-FINDING."),
  "C18": ("Theorems are about Model/Time.lean (zones as offset/decode functions with the PEP 495 round-trip law as an explicit hypothesis structure "
          "TZ.Lawful, proved to hold for CPython's _mktime/fromtimestamp/astimezone algorithms on every one-transition zone) and the regenerated "
          "Gen.TimeConv.naiveHandling / Gen.Stale.staleCond. Tie: T1 regenerates both fragments; T2 runs child processes under 6 (thorough: 12) TZ values "
